@@ -1122,6 +1122,10 @@ void Preprocessor::dump(std::ostream &out) const
 std::size_t Preprocessor::calculateHash(const std::string &toolinfo) const
 {
     std::string hashData = toolinfo;
+    // the language the file is analysed as (it might be enforced)
+    hashData += ' ';
+    hashData += std::to_string(static_cast<int>(mLang));
+    hashData += ' ';
     for (const simplecpp::Token *tok = mTokens.cfront(); tok; tok = tok->next) {
         if (!tok->comment) {
             hashData += tok->str();
